@@ -10,6 +10,18 @@ props = [json.loads(l) for l in open(os.path.join(V, "properties.jsonl"))]
 
 # id -> (level category, level text, level note, technique, design section)
 CHECKS = {
+    "C01": (
+        "exploration",
+        "Runtime monitor on the real parser + correlate(): seeded project models (all unit kinds, types with components/bindings/"
+        "generics/finals, generic/abstract/explicit interfaces, enums, common, namelists, all intrinsic types and kind/len "
+        "spellings, attribute forms incl. multi-entity declarations) are rendered in a canonical and in random equivalent "
+        "spellings; FORD's object tree is canonicalised and compared between spellings (metamorphic) and with the table computed "
+        "from the model (reference); parse diagnostics on valid input are violations.",
+        "Trusts vf/fgen.py (model -> expected table) and the generator's validity rules; internal representation differences "
+        "(flag vs list, blanks, letter case outside literals) are normalised; documentation words are left to C03.",
+        "runtime monitoring: metamorphic + reference-model oracle over FORD's entity tree, diagnostics recorder",
+        "3/C01",
+    ),
     "C02": (
         "exploration",
         "Runtime monitor on the real FortranReader: bounded-exhaustive token/separator sequences plus seeded long random ones "
